@@ -964,7 +964,43 @@ def vp_set_fn(*a):
 vp_set = _Proxy(vp_set_fn, builtins.set)
 
 
+CACHES = []  # memo tables of functions decorated with functools.lru_cache / cache in the analysed modules
+
+
+def vp_cache_(*dargs, **dkw):
+    """stands in for functools.lru_cache / functools.cache in the analysed modules.  CrossHair switches the real lru_cache off while it
+    traces, which would hide the memo from the analysis; this one keeps it, for the lifetime of one execution (one process)."""
+    def deco(fn):
+        table = {}
+        CACHES.append(table)
+
+        def wrapper(*a, **k):
+            plain = all(type(x) in (builtins.str, builtins.int, builtins.bool, builtins.bytes, type(None), builtins.float) for x in a) and not k
+            if not plain:
+                return fn(*a, **k)
+            if a in table:
+                return table[a]
+            r = fn(*a, **k)
+            table[a] = r
+            return r
+
+        wrapper.__name__ = getattr(fn, "__name__", "cached")
+        wrapper.__wrapped__ = fn
+        wrapper.cache_clear = table.clear
+        return wrapper
+
+    if len(dargs) == 1 and callable(dargs[0]) and not dkw:
+        return deco(dargs[0])
+    return deco
+
+
+def clear_caches():
+    for t in CACHES:
+        t.clear()
+
+
 INJECT = {
+    "vp_cache_": vp_cache_,
     "vp_fmt_": vp_fmt_,
     "vp_fstr_": vp_fstr_,
     "vp_join_": vp_join_,
